@@ -34,10 +34,11 @@ GOENV = dict(os.environ, GOFLAGS='-mod=mod', GOPROXY='off', GOSUMDB='off', GOTOO
 TRUSTED_BASE = [
     'Coq 8.16.1 kernel and the vm_compute bytecode VM (no native_compute)',
     'tools/constgen (Go go/parser+go/constant): copies literal tables/constants of /repo into coq/Gen/*.v',
-    'tools/effgen (Go go/parser): translates Go function bodies into the effect IR (C16/C17/C19)',
-    'extraction: ExtrOcamlBasic + ExtrOcamlZBigInt directives only; OCaml 4.13 + zarith; ocaml/driver.ml parser/printer',
-    'harness/main.go (Go) and gen/*.py (case generators, comparison)',
-    'modelled, not verified: math/big, math/bits, encoding/hex, strconv, sync.Pool, x/crypto/sha3, dchest/blake512, Go compiler/runtime, amd64 assembly of ff (tied by correspondence only)',
+    'tools/limbgen (Go AST -> Gallina) for the portable limb routines of ff/ffg; tools/asmgen (Plan 9 amd64 assembly -> instruction lists for Model/AsmSem.v); tools/bigintgen (symbolic execution of the loop-free math/big functions of babyjub/utils/mimc7/poseidon); each output is PROVED equal to the hand-written model, so a translator error shows up as a failing lemma or as a harness mismatch, but what the translators abstract (memory layout, Go evaluation order, the instruction semantics of AsmSem.v) is trusted',
+    'tools/effgen (Go go/parser): translates Go function bodies into the effect IR (C16/C17/C19); the effect signatures it assumes for math/big, ff assembly stubs, hex, sha3, blake512 and sync.Pool are trusted',
+    'extraction: ExtrOcamlBasic + ExtrOcamlZBigInt directives only; OCaml 4.13 + zarith; ocaml/driver.ml parser/printer (guarded by an in-Coq vm_compute re-evaluation of a sample of the same cases)',
+    'harness/main.go (Go), gen/*.py (case generators, comparison) and gen/oracle.py (independent Python specification used as third voice)',
+    'modelled, not verified: math/big, math/bits, encoding/hex, strconv, sync.Pool, x/crypto/sha3, dchest/blake512 (their mathematical meaning is the model), the Go compiler and runtime, the memory model and the scheduler (observed through the -race / concurrent harness passes)',
 ]
 
 
@@ -411,6 +412,28 @@ def gen_C03(rng, tier):
                 for Rsm in sm:
                     for S0 in (0, 1):
                         out.append((vline(dg, Asm, m, Rsm, S0), 'small-order-grid'))
+        # scalars of very different lengths: a digest with many leading zero bits next to a
+        # full-length S (double-scalar evaluation orders must not depend on which is longer)
+        if dg + 'short' not in _done:
+            _done.add(dg + 'short')
+            sk, rr = rng.randrange(1, M.L), rng.randrange(1, M.L)
+            A2, R2 = M.ed_mul(sk, M.B8), M.ed_mul(rr, M.B8)
+            found = 0
+            for trial in range(4000):
+                m3 = rng.randrange(M.Q)
+                v = [R2[0], R2[1], A2[0], A2[1], m3]
+                hm = ORC.poseidon_ex(v, 0, 1)[0] if dg == 'p' else ORC.mimc_hash(v, None)
+                if hm.bit_length() > 246:
+                    continue
+                S3 = (rr + 8 * hm * sk) % M.L
+                out.append((vline(dg, A2, m3, R2, S3), 'verify-honest/short-digest'))
+                for bit in (S3.bit_length() - 1, 250, 249, 248, 247, hm.bit_length() + 3, hm.bit_length() + 4):
+                    S4 = S3 ^ (1 << bit)
+                    if 0 <= S4 < M.L:
+                        out.append((vline(dg, A2, m3, R2, S4), 'short-digest/high-bit-of-S-flipped'))
+                found += 1
+                if found >= (2 if tier == 'quick' else 6):
+                    break
         # off-curve / random group elements
         out.append((vline(dg, pk, m, (R8[0], (R8[1] + 1) % M.Q), S), 'R8-off-curve'))
         out.append((vline(dg, (0, 1), m, R8, S), 'A=identity'))
@@ -620,6 +643,21 @@ def main():
                 mism += m3
             else:
                 extra['portable386_skipped'] = 'binary did not run here (rc=%d)' % rc3
+        if pid != 'C17' and not replay and lines:
+            # the property's own operations under concurrency: 8 goroutines over a sample of the
+            # same lines (first concurrently on a cold process, then against the sequential
+            # results); a value that depends on the schedule violates the property as stated
+            # "for all inputs" as well as C17
+            rs = random.Random(seed + 11)
+            sub = lines if len(lines) <= 300 else [lines[i] for i in sorted(rs.sample(range(len(lines)), 300))]
+            rc4, impl4, dt4 = run_cases(sub, pid + '_conc', exe='harness', flags='-conc 8 -rounds 1')
+            tail4 = '\n'.join(impl4[len(sub):])
+            extra['conc_cases'] = len(sub)
+            extra['conc_wall_s'] = round(dt4, 2)
+            if 'CONC-DIFF' in tail4:
+                violations.append(('result differs under concurrency (8 goroutines over this property\'s own cases)', dict(kind='conc', lines=sub, output=tail4[:4000])))
+            elif 'CONC-DONE' not in tail4:
+                violations.append(('concurrent run did not complete (rc=%d)' % rc4, dict(kind='conc', lines=sub, output=tail4[-3000:])))
         if not replay:
             ic = incoq_sample(pid, cases, model, random.Random(seed + 7), 6 if tier == 'quick' else 40)
             extra.update(ic)
@@ -895,7 +933,7 @@ def predicates(pid, cases, impl):
         t = line.split()
         op = t[0]
         try:
-            if pid == 'C19' and op in ('mulrecv', 'mulalias', 'pset', 'decompressrecv', 'sigdecomp') and not o.startswith('ERR') and o != 'PANIC':
+            if pid == 'C19' and op in ('mulrecv', 'mulalias', 'pset', 'psetalias', 'psetshared', 'decompressrecv', 'sigdecomp') and not o.startswith('ERR') and o != 'PANIC':
                 f = o.split()
                 h = len(f) // 2
                 if f[:h] != f[h:]:
